@@ -10,7 +10,7 @@ Arguments vpurge : simpl never.
 (* ---------- association-list facts ---------- *)
 
 Definition names_of (l : list (bytes * ckinfo)) := map fst l.
-Definition wf (s : vstore) : Prop := NoDup (names_of (vs_cks s)).
+Definition wf (s : vstore) : Prop := NoDup (names_of (vs_cks s)) /\ NoDup (names_of (vs_remote s)).
 
 Lemma ck_lookup_In l n c : ck_lookup l n = Some c -> In (n, c) l.
 Proof.
@@ -74,38 +74,67 @@ Proof.
   apply filter_In in Hx as [_ Hp]. subst. now rewrite bytes_eqb_refl in Hp.
 Qed.
 
+(* ---------- purge on a directory ---------- *)
+
+Lemma purge_dir_In k lat l x : In x (purge_dir k lat l) -> In x l.
+Proof. unfold purge_dir. intros H. now apply filter_In in H. Qed.
+
+Lemma NoDup_purge_dir k lat l : NoDup (names_of l) -> NoDup (names_of (purge_dir k lat l)).
+Proof. apply NoDup_names_filter. Qed.
+
+Lemma purge_dir_lookup k lat l n c :
+  NoDup (names_of l) -> ck_lookup (purge_dir k lat l) n = Some c -> ck_lookup l n = Some c.
+Proof. intros Hnd H. apply ck_lookup_In, purge_dir_In in H. now apply In_ck_lookup. Qed.
+
+(* projections of vpurge *)
+Lemma vpurge_cks s : vs_cks (vpurge s) = purge_dir (keep_num s) (vs_latest s) (vs_cks s).
+Proof. reflexivity. Qed.
+Lemma vpurge_remote s : vs_remote (vpurge s) = purge_dir (N.to_nat max_remote_checkpoint_num) remote_purge_latest (vs_remote s).
+Proof. reflexivity. Qed.
+Lemma vpurge_val s : vs_val (vpurge s) = vs_val s.
+Proof. reflexivity. Qed.
+Lemma vpurge_pending s : vs_pending (vpurge s) = vs_pending s.
+Proof. reflexivity. Qed.
+
 (* ---------- well-formedness is an invariant ---------- *)
 
 Lemma wf_vpurge s : wf s -> wf (vpurge s).
-Proof. unfold wf, vpurge. cbn. apply NoDup_names_filter. Qed.
+Proof. intros [H1 H2]. split; [rewrite vpurge_cks|rewrite vpurge_remote]; now apply NoDup_purge_dir. Qed.
 
 Lemma wf_vstep s o : wf s -> wf (fst (vstep s o)).
 Proof.
   intros H. destruct o; cbn; try exact H.
   - destruct (vs_pending s); exact H.
   - destruct (vs_pending s) as [[n v]|]; [|exact H]. cbn.
-    apply wf_vpurge. unfold wf. cbn.
-    apply NoDup_ck_insert; [apply NoDup_names_filter, H|apply names_ck_remove].
+    apply wf_vpurge. destruct H as [H1 H2]. split; cbn; [|exact H2].
+    apply NoDup_ck_insert; [apply NoDup_names_filter, H1|apply names_ck_remove].
   - destruct (ck_lookup (vs_cks s) (enc_name term index)); [|exact H]. cbn. now apply wf_vpurge.
+  - destruct (ck_lookup (vs_remote s) (enc_name term index)); [|exact H]. cbn. now apply wf_vpurge.
 Qed.
 
 Lemma wf_vcopy a b t i : wf b -> wf (fst (vcopy a b t i)).
 Proof.
-  intros H. unfold vcopy. destruct (ck_lookup (vs_cks a) (enc_name t i)); unfold wf; cbn.
-  - apply NoDup_ck_insert; [apply NoDup_names_filter, H|apply names_ck_remove].
-  - apply NoDup_names_filter, H.
+  intros [H1 H2]. unfold vcopy. destruct (ck_lookup (vs_cks a) (enc_name t i)); split; cbn; try exact H2.
+  - apply NoDup_ck_insert; [apply NoDup_names_filter, H1|apply names_ck_remove].
+  - apply NoDup_names_filter, H1.
+Qed.
+
+Lemma wf_vcopy_remote a b t i : wf b -> wf (fst (vcopy_remote a b t i)).
+Proof.
+  intros [H1 H2]. unfold vcopy_remote. destruct (ck_lookup (vs_cks a) (enc_name t i)); split; cbn; try exact H1.
+  - apply NoDup_ck_insert; [apply NoDup_names_filter, H2|apply names_ck_remove].
+  - apply NoDup_names_filter, H2.
 Qed.
 
 (* ---------- a checkpoint keeps its recorded content while it exists ---------- *)
 
-(* o does not (re)create the checkpoint named n *)
 Definition not_finish (o : vop) : Prop := match o with OFinish _ _ => False | _ => True end.
 
 Lemma vpurge_lookup s n c : wf s -> ck_lookup (vs_cks (vpurge s)) n = Some c -> ck_lookup (vs_cks s) n = Some c.
-Proof.
-  intros Hw H. apply ck_lookup_In in H. unfold vpurge in H. cbn in H.
-  apply filter_In in H as [H _]. now apply In_ck_lookup.
-Qed.
+Proof. intros [Hw _]. rewrite vpurge_cks. now apply purge_dir_lookup. Qed.
+
+Lemma vpurge_lookup_remote s n c : wf s -> ck_lookup (vs_remote (vpurge s)) n = Some c -> ck_lookup (vs_remote s) n = Some c.
+Proof. intros [_ Hw]. rewrite vpurge_remote. now apply purge_dir_lookup. Qed.
 
 (* any step other than the completion of a backup named n leaves what is recorded under n as it
    was, or removes it (purge) *)
@@ -117,15 +146,33 @@ Proof.
   - destruct (vs_pending s); auto.
   - destruct (vs_pending s) as [[m v]|] eqn:EP; auto.
     destruct Hp as [Hp|[]]. cbn. intros H.
-    apply vpurge_lookup in H; cbn.
+    apply vpurge_lookup in H.
     + cbn in H. apply ck_lookup_In, In_ck_insert in H as [H|H]; [inversion H; congruence|].
-      unfold ck_remove in H. apply filter_In in H as [H _]. now apply In_ck_lookup.
-    + unfold wf. cbn. apply NoDup_ck_insert; [apply NoDup_names_filter, Hw|apply names_ck_remove].
+      unfold ck_remove in H. apply filter_In in H as [H _]. apply In_ck_lookup; [apply Hw|exact H].
+    + destruct Hw as [H1 H2]. split; cbn; [|exact H2].
+      apply NoDup_ck_insert; [apply NoDup_names_filter, H1|apply names_ck_remove].
   - destruct (ck_lookup (vs_cks s) (enc_name term index)); auto. cbn. intros H.
+    apply vpurge_lookup in H; auto.
+  - destruct (ck_lookup (vs_remote s) (enc_name term index)); auto. cbn. intros H.
     apply vpurge_lookup in H; auto.
 Qed.
 
-(* pending backup: which name is being copied, and what was recorded for it *)
+(* the directory of remote checkpoints only loses entries under single-store steps *)
+Lemma vstep_preserves_remote s o n c :
+  wf s -> ck_lookup (vs_remote (fst (vstep s o))) n = Some c -> ck_lookup (vs_remote s) n = Some c.
+Proof.
+  intros Hw. destruct o; cbn; auto.
+  - destruct (vs_pending s); auto.
+  - destruct (vs_pending s) as [[m v]|] eqn:EP; auto. cbn. intros H.
+    apply vpurge_lookup_remote in H; [exact H|].
+    destruct Hw as [H1 H2]. split; cbn; [|exact H2].
+    apply NoDup_ck_insert; [apply NoDup_names_filter, H1|apply names_ck_remove].
+  - destruct (ck_lookup (vs_cks s) (enc_name term index)); auto. cbn. intros H.
+    apply vpurge_lookup_remote in H; auto.
+  - destruct (ck_lookup (vs_remote s) (enc_name term index)); auto. cbn. intros H.
+    apply vpurge_lookup_remote in H; auto.
+Qed.
+
 Lemma vstep_pending s o :
   not_finish o ->
   match vs_pending s with
@@ -136,6 +183,7 @@ Proof.
   intros H. destruct (vs_pending s) as [p|] eqn:E; [|exact I].
   destruct o; cbn; rewrite ?E; auto; try contradiction.
   - destruct (ck_lookup (vs_cks s) (enc_name term index)); cbn; auto.
+  - destruct (ck_lookup (vs_remote s) (enc_name term index)); cbn; auto.
 Qed.
 
 Definition run (s : vstore) (ops : list vop) : vstore := fold_left (fun s o => fst (vstep s o)) ops s.
@@ -143,7 +191,6 @@ Definition run (s : vstore) (ops : list vop) : vstore := fold_left (fun s o => f
 Lemma wf_run ops : forall s, wf s -> wf (run s ops).
 Proof. induction ops as [|o ops IH]; cbn; intros s H; [exact H|]. apply IH, wf_vstep, H. Qed.
 
-(* ops that may follow Backup while the copy runs: anything but the completion *)
 Lemma run_pending ops : forall s p,
   Forall not_finish ops -> vs_pending s = Some p ->
   vs_pending (run s ops) = Some p.
@@ -153,11 +200,9 @@ Proof.
   pose proof (vstep_pending s o Ho) as H. now rewrite Hp in H.
 Qed.
 
-(* an op that is not the start of a backup with the name n *)
 Definition not_backup_of (n : bytes) (o : vop) : Prop :=
   match o with OBackup t i _ => enc_name t i <> n | _ => True end.
 
-(* invariant while no backup named n is started: the pending name is not n *)
 Definition pending_not (n : bytes) (s : vstore) : Prop :=
   match vs_pending s with Some (m, _) => m <> n | None => True end.
 
@@ -167,6 +212,7 @@ Proof.
   - destruct (vs_pending s) as [[m v]|] eqn:E; cbn; rewrite ?E; auto.
   - destruct (vs_pending s) as [[m v]|] eqn:E; cbn; rewrite ?E; auto.
   - destruct (ck_lookup (vs_cks s) (enc_name term index)); cbn; auto.
+  - destruct (ck_lookup (vs_remote s) (enc_name term index)); cbn; auto.
 Qed.
 
 Lemma run_preserves n c ops : forall s,
@@ -179,11 +225,15 @@ Proof.
   eapply vstep_preserves; [exact Hw| |exact H]. left. exact Hp.
 Qed.
 
+Lemma run_preserves_remote n c ops : forall s,
+  wf s -> ck_lookup (vs_remote (run s ops)) n = Some c -> ck_lookup (vs_remote s) n = Some c.
+Proof.
+  induction ops as [|o ops IH]; cbn; intros s Hw H; [exact H|].
+  apply IH in H; [|apply wf_vstep, Hw]. eapply vstep_preserves_remote; eauto.
+Qed.
+
 (* ---------- the theorem: for all histories ---------- *)
 
-(* Backup(t,i) taken when the content is h; any operations while the copy runs; the copy completes;
-   any later history that does not start another backup of the same (t,i): a successful
-   Restore(t,i) yields exactly h, whatever was written in between. *)
 Theorem backup_restore s0 t i h during dg hf later s3 :
   wf s0 -> vs_pending s0 = None ->
   Forall not_finish during ->
@@ -199,20 +249,19 @@ Proof.
   pose proof (run_pending during s1 _ Hd Hp1) as Hp2.
   assert (Hw2 : wf s2) by (apply wf_vstep, wf_run, Hw1).
   assert (Hn2 : pending_not (enc_name t i) s2).
-  { unfold pending_not, s2. cbn. rewrite Hp2. cbn. exact I. }
+  { unfold pending_not, s2. cbn. rewrite Hp2. cbn. rewrite vpurge_pending. cbn. exact I. }
   cbn in HR. destruct (ck_lookup (vs_cks (run s2 later)) (enc_name t i)) as [c|] eqn:EL; [|inversion HR].
-  inversion HR; subst s3. cbn.
+  inversion HR; subst s3. rewrite vpurge_val. cbn.
   apply (run_preserves _ _ later s2 Hw2 Hn2 Hl) in EL.
-  (* what OFinish recorded *)
   unfold s2 in EL. cbn in EL. rewrite Hp2 in EL. cbn in EL.
   apply vpurge_lookup in EL.
   - cbn in EL. apply ck_lookup_In, In_ck_insert in EL as [EL|EL].
     + inversion EL. reflexivity.
     + exfalso. eapply names_ck_remove. unfold names_of. apply (in_map fst) in EL. exact EL.
-  - unfold wf. cbn. apply NoDup_ck_insert; [apply NoDup_names_filter, wf_run, Hw1|apply names_ck_remove].
+  - pose proof (wf_run during s1 Hw1) as [H1 H2]. split; cbn; [|exact H2].
+    apply NoDup_ck_insert; [apply NoDup_names_filter, H1|apply names_ck_remove].
 Qed.
 
-(* Restore either succeeds or reports that the checkpoint is gone; it never leaves another content *)
 Theorem restore_outcomes s t i s' r :
   vstep s (ORestore t i) = (s', r) ->
   (r = ROk /\ exists c, ck_lookup (vs_cks s) (enc_name t i) = Some c /\ vs_val s' = ck_val c) \/
@@ -223,8 +272,6 @@ Proof.
   - right. auto.
 Qed.
 
-(* restoring does not damage the checkpoint: while it exists it can be restored again, with the
-   same recorded content and the same on-disk digest *)
 Theorem restore_again s t i s1 later s2 c :
   wf s -> vs_pending s = None ->
   vstep s (ORestore t i) = (s1, ROk) ->
@@ -241,10 +288,9 @@ Proof.
   cbn in H1. destruct (ck_lookup (vs_cks s) (enc_name t i)) as [c0|] eqn:E0; [|inversion H1].
   inversion H1; subst s1. apply vpurge_lookup in Hc1; [|exact Hw]. cbn in Hc1.
   cbn in H2. rewrite Hc in H2. inversion H2; subst s2.
-  rewrite E0 in Hc1. inversion Hc1; subst c0. split; [reflexivity|]. unfold vpurge. reflexivity.
+  rewrite E0 in Hc1. inversion Hc1; subst c0. split; [reflexivity|]. rewrite !vpurge_val. reflexivity.
 Qed.
 
-(* a checkpoint copied to another store restores there to the same content *)
 Theorem copy_restore a b t i b' c later b2 :
   wf b -> pending_not (enc_name t i) b ->
   ck_lookup (vs_cks a) (enc_name t i) = Some c ->
@@ -257,8 +303,26 @@ Proof.
   assert (Hw' : wf b') by (change b' with (fst (b', ROk)); rewrite <- Hc; apply wf_vcopy, Hw).
   unfold vcopy in Hc. rewrite Ha in Hc. inversion Hc; subst b'. clear Hc.
   cbn in HR. match type of HR with context [ck_lookup ?l ?n] => destruct (ck_lookup l n) as [c'|] eqn:EL end; [|inversion HR].
-  inversion HR; subst b2. cbn.
+  inversion HR; subst b2. rewrite vpurge_val. cbn.
   apply run_preserves in EL; [|exact Hw'|exact Hpn|exact Hl]. cbn in EL.
+  apply ck_lookup_In, In_ck_insert in EL as [EL|EL]; [now inversion EL|].
+  exfalso. eapply names_ck_remove. unfold names_of. apply (in_map fst) in EL. exact EL.
+Qed.
+
+(* a checkpoint transferred into the directory for remote checkpoints and applied by RestoreFromRemoteBackup *)
+Theorem copy_remote_restore a b t i b' c later b2 :
+  wf b ->
+  ck_lookup (vs_cks a) (enc_name t i) = Some c ->
+  vcopy_remote a b t i = (b', ROk) ->
+  vstep (run b' later) (ORestoreRemote t i) = (b2, ROk) ->
+  vs_val b2 = ck_val c.
+Proof.
+  intros Hw Ha Hc HR.
+  assert (Hw' : wf b') by (change b' with (fst (b', ROk)); rewrite <- Hc; apply wf_vcopy_remote, Hw).
+  unfold vcopy_remote in Hc. rewrite Ha in Hc. inversion Hc; subst b'. clear Hc.
+  cbn in HR. match type of HR with context [ck_lookup ?l ?n] => destruct (ck_lookup l n) as [c'|] eqn:EL end; [|inversion HR].
+  inversion HR; subst b2. rewrite vpurge_val. cbn.
+  apply run_preserves_remote in EL; [|exact Hw']. cbn in EL.
   apply ck_lookup_In, In_ck_insert in EL as [EL|EL]; [now inversion EL|].
   exfalso. eapply names_ck_remove. unfold names_of. apply (in_map fst) in EL. exact EL.
 Qed.
@@ -277,13 +341,11 @@ Proof.
   intros H Hw Hn. apply ck_lookup_In in H.
   destruct (mem_name n (purge_removed (keep_num s) (names_of (vs_cks s)) (vs_latest s))) eqn:E.
   - now apply mem_name_In.
-  - exfalso. apply ck_lookup_none_notin in Hn. apply Hn. unfold vpurge, names_of. cbn.
+  - exfalso. apply ck_lookup_none_notin in Hn. apply Hn. rewrite vpurge_cks. unfold purge_dir, names_of.
     apply in_map_iff. exists (n, c). split; [reflexivity|]. apply filter_In. split; [exact H|].
     cbn. unfold names_of in E. now rewrite E.
 Qed.
 
-(* PrepareSnapshot + RestoreFromSnapshot on a replica: it ends with the content recorded for (t,i),
-   by its own local checkpoint when it has one, else by the peer's *)
 Theorem fetch_restore a b t i b' later b2 :
   wf b -> pending_not (enc_name t i) b ->
   vfetch a b t i = (b', ROk) ->
@@ -297,7 +359,7 @@ Proof.
   destruct (ck_lookup (vs_cks b) (enc_name t i)) as [c|] eqn:EB.
   - inversion Hf; subst b'. exists c. split; [|now left].
     cbn in HR. destruct (ck_lookup (vs_cks (run b later)) (enc_name t i)) as [c'|] eqn:EL; [|inversion HR].
-    inversion HR; subst b2. unfold vpurge. cbn.
+    inversion HR; subst b2. rewrite vpurge_val. cbn.
     apply run_preserves in EL; auto. congruence.
   - destruct (ck_lookup (vs_cks a) (enc_name t i)) as [c|] eqn:EA; [|inversion Hf].
     exists c. split; [|right; auto].
